@@ -124,3 +124,28 @@ Print Assumptions C08_one3d_time_flags.
 Example C08_one3d_flags_inhabited :
   o_tflag [99365; 99365; 1] [2200; 2300; 0] = [(1999365, 220000); (1999365, 230000); (2000001, 0)].
 Proof. vm_compute. reflexivity. Qed.
+
+(* ======================================================================================================
+   CAMx TEMPERATURE and HEIGHT/PRESSURE files, Model/TempHp.v
+   ====================================================================================================== *)
+From PNC Require Import Model.TempHp Proofs.TempHpProofs.
+
+Theorem C08_temperature_read_write : forall c, t_wf c = true -> t_readable c = true ->
+  t_mm_read (t_ny c) (t_nx c) (t_enc c) (4 * Z.of_nat (length (t_enc c))) = Ok (t_view_of c).
+Proof. exact t_mm_read_enc. Qed.
+Print Assumptions C08_temperature_read_write.
+
+Theorem C08_temperature_rewrite_idempotent : forall c, t_wf c = true ->
+  match t_dec (t_nx c) (t_ny c) (t_nz c) (t_enc c) with Some c' => t_enc c' = t_enc c | None => False end.
+Proof. exact t_rewrite_idempotent. Qed.
+Print Assumptions C08_temperature_rewrite_idempotent.
+
+Theorem C08_heightpres_read_write : forall c, h_wf c = true -> h_readable c = true ->
+  h_mm_read (h_ny c) (h_nx c) (h_enc c) (4 * Z.of_nat (length (h_enc c))) = Ok (h_view_of c).
+Proof. exact h_mm_read_enc. Qed.
+Print Assumptions C08_heightpres_read_write.
+
+Theorem C08_heightpres_rewrite_idempotent : forall c, h_wf c = true ->
+  match h_dec (h_nx c) (h_ny c) (h_nz c) (h_enc c) with Some c' => h_enc c' = h_enc c | None => False end.
+Proof. exact h_rewrite_idempotent. Qed.
+Print Assumptions C08_heightpres_rewrite_idempotent.
